@@ -48,6 +48,9 @@ MUTANTS = [
     ("M63", "ace.py", "        if other.srcport.operator:\n            top = set(other.srcport.ports)", "        if other.srcport.ports:\n            top = set(other.srcport.ports)", "C03 C04"),
     ("M64", "ace.py", "        if \"nc_wildcard\" in skip_:\n            if \"wildcard\" in [self.srcaddr.type, other.srcaddr.type]:", "        elif \"nc_wildcard\" in skip_:\n            if \"wildcard\" in [self.srcaddr.type, other.srcaddr.type]:", "C03 C11"),
     ("M65", "ace.py", "        if top := set(other.option.flags):\n            if bottom := set(self._option.flags):\n                diff = bottom.intersection(top)\n                return diff == bottom\n            return False", "        if top := set(other.option.flags):\n            if bottom := set(self._option.flags):\n                diff = bottom.intersection(top)\n                return diff == bottom\n            return True", "C03 C11"),
+    ("M70", "acl.py", "                    shadow.add(ace_bottom.line)\n", "", "C11 C04"),
+    ("M71", "acl.py", "            idx = aces.index(top) + 1", "            idx = aces.index(top)", "C04"),
+    ("M72", "acl.py", "            items_bot = [o for o in items_bot if o.line not in shadow]", "            items_bot = [o for o in items_bot if o.line not in shadow and not isinstance(o, Remark)]", "C04"),
     ("M30", "port.py", "            return [ports[0] - 1] if ports else [65535]", "            return [ports[0]] if ports else [65535]", "C08"),
     ("M31", "port.py", "            return [ports[-1] + 1] if ports else [1]", "            return [ports[1] + 1] if ports else [1]", "C08"),
     ("M32", "port.py", "        ports = sorted(ports)\n        if operator == \"eq\":", "        if operator == \"eq\":", "C08"),
